@@ -45,7 +45,30 @@ const (
 	lfFloat     // f:1.5
 	lfBareWild  // b*
 	lfCount
+	// forms used by the SQL tiers only
+	lfRangeExclStr  // f:{a TO b}
+	lfRangeStrLo    // f:[* TO b]
+	lfRangeStrHi    // f:[a TO *]
+	lfRangeAll      // f:[* TO *]
+	lfRangeExclLo   // f:{* TO 5}
+	lfRangeExclHi   // f:{5 TO *}
+	lfRangeFloat    // f:[1.5 TO 2.5]
+	lfRangeFloatEx  // f:{0.001 TO 0.002}
+	lfListInt       // f:(1 OR 2)
+	lfWildMid       // f:b*c
+	lfRegexpShort   // f:/b/
+	lfSpecialFloat  // f:NaN, f:Inf, f:-Inf
+	lfAllCount
 )
+
+var leafNames = []string{"bare", "eq-str", "eq-int", "bare-int", "gt", "ge", "lt", "le", "range-incl", "range-excl", "range-lo", "range-hi",
+	"range-str", "list", "wild", "regexp", "quoted", "float", "bare-wild", "", "range-excl-str", "range-str-lo", "range-str-hi", "range-all",
+	"range-excl-lo", "range-excl-hi", "range-float", "range-float-excl", "list-int", "wild-mid", "regexp-short", "special-float"}
+
+// concreteFields makes field names the fixed sequence p, q, r, ... (one per leaf) instead of
+// symbolic bytes; used where rows have to be looked up by name.
+var concreteFields = false
+var nextField = 0
 
 var smallLeaves = []int{lfBare, lfEqStr, lfEqInt}
 
@@ -74,7 +97,13 @@ func holeByte(name, cls string) byte {
 	return b
 }
 
-func holeField() string { return string([]byte{holeByte("field", fieldCls)}) }
+func holeField() string {
+	if concreteFields {
+		nextField++
+		return string([]byte{byte('o' + nextField)})
+	}
+	return string([]byte{holeByte("field", fieldCls)})
+}
 func holeStr() string   { return string([]byte{holeByte("str", strFirst), holeByte("str", strRest)}) }
 
 // holeInt returns a 1-2 digit number as written and its value (no leading zero when 2 digits).
@@ -120,6 +149,28 @@ func genLeaf(forms []int) *node {
 		lf.field = holeField()
 	case lfBareWild:
 		lf.s1 = string([]byte{holeByte("str", strFirst), holeByte("wc", "*?")})
+	case lfRangeExclStr:
+		lf.field, lf.s1, lf.s2 = holeField(), holeStr(), holeStr()
+	case lfRangeStrLo, lfRangeStrHi:
+		lf.field, lf.s1 = holeField(), holeStr()
+	case lfRangeAll, lfRangeFloat, lfRangeFloatEx:
+		lf.field = holeField()
+	case lfRangeExclLo, lfRangeExclHi:
+		lf.field = holeField()
+		lf.d1, lf.i1 = holeInt()
+	case lfListInt:
+		lf.field = holeField()
+		lf.d1, lf.i1 = holeInt()
+		lf.d2, lf.i2 = holeInt()
+	case lfWildMid:
+		lf.field = holeField()
+		lf.s1 = string([]byte{holeByte("str", strFirst), holeByte("wc", "*?"), holeByte("str", strRest)})
+	case lfRegexpShort:
+		lf.field = holeField()
+		lf.s1 = string([]byte{'/', holeByte("re", strRest+"."), '/'})
+	case lfSpecialFloat:
+		lf.field = holeField()
+		lf.s1 = []string{"NaN", "Inf", "infinity"}[rtChoose("special", 3)]
 	}
 	return &node{kind: nLeaf, lf: lf}
 }
@@ -157,6 +208,7 @@ type printOpts struct {
 	extraPar  map[*node]bool // nodes wrapped in redundant parentheses
 	wideSpace bool           // two spaces / tabs instead of one space
 	lowerKw   bool           // and/or/not/to in lower case
+	valuePar  bool           // field:(value) instead of field:value
 }
 
 func kw(s string, o *printOpts) string {
@@ -189,8 +241,14 @@ func printLeaf(lf *leaf, o *printOpts) string {
 	case lfBareInt:
 		return lf.d1
 	case lfEqStr:
+		if o != nil && o.valuePar {
+			return lf.field + ":(" + lf.s1 + ")"
+		}
 		return lf.field + ":" + lf.s1
 	case lfEqInt:
+		if o != nil && o.valuePar {
+			return lf.field + ":(" + lf.d1 + ")"
+		}
 		return lf.field + ":" + lf.d1
 	case lfGt:
 		return lf.field + ":>" + lf.d1
@@ -213,11 +271,37 @@ func printLeaf(lf *leaf, o *printOpts) string {
 	case lfList:
 		return lf.field + ":(" + lf.s1 + sp(o) + kw("OR", o) + sp(o) + lf.s2 + ")"
 	case lfWild, lfRegexp:
+		if o != nil && o.valuePar {
+			return lf.field + ":(" + lf.s1 + ")"
+		}
 		return lf.field + ":" + lf.s1
 	case lfQuoted:
+		if o != nil && o.valuePar {
+			return lf.field + ":(\"" + lf.s1 + "\")"
+		}
 		return lf.field + ":\"" + lf.s1 + "\""
 	case lfFloat:
 		return lf.field + ":1.5"
+	case lfRangeExclStr:
+		return lf.field + ":{" + lf.s1 + sp(o) + kw("TO", o) + sp(o) + lf.s2 + "}"
+	case lfRangeStrLo:
+		return lf.field + ":[*" + sp(o) + kw("TO", o) + sp(o) + lf.s1 + "]"
+	case lfRangeStrHi:
+		return lf.field + ":[" + lf.s1 + sp(o) + kw("TO", o) + sp(o) + "*]"
+	case lfRangeAll:
+		return lf.field + ":[*" + sp(o) + kw("TO", o) + sp(o) + "*]"
+	case lfRangeExclLo:
+		return lf.field + ":{*" + sp(o) + kw("TO", o) + sp(o) + lf.d1 + "}"
+	case lfRangeExclHi:
+		return lf.field + ":{" + lf.d1 + sp(o) + kw("TO", o) + sp(o) + "*}"
+	case lfRangeFloat:
+		return lf.field + ":[1.5" + sp(o) + kw("TO", o) + sp(o) + "2.5]"
+	case lfRangeFloatEx:
+		return lf.field + ":{0.001" + sp(o) + kw("TO", o) + sp(o) + "0.002}"
+	case lfListInt:
+		return lf.field + ":(" + lf.d1 + sp(o) + kw("OR", o) + sp(o) + lf.d2 + ")"
+	case lfWildMid, lfRegexpShort, lfSpecialFloat:
+		return lf.field + ":" + lf.s1
 	}
 	return "?"
 }
